@@ -34,6 +34,10 @@ func init() {
 		{Name: "mask-counts-runes", Rule: "R18.2", Where: "stars", Edits: []Edit{{"connect.go", "fmt.Fprintf(w, \"Username: %v\\n\", stars(len(p.Username())))", "fmt.Fprintf(w, \"Username: %v\\n\", stars(len([]rune(p.Username()))))"}}},
 		{Name: "dump-table-driven-rows-carry-username", Rule: "R18.1", Where: "(*Connect).dump", Edits: []Edit{{"connect.go", "\tp.UserProperties.dump(w)\n}\n\nfunc stars", "\tp.UserProperties.dump(w)\n\trows := []struct{ k, v string }{{\"Username\", p.Username()}, {\"ClientID\", p.ClientID()}}\n\tfor _, r := range rows {\n\t\tfmt.Fprintf(w, \"%s: %v\\n\", r.k, r.v)\n\t}\n}\n\nfunc stars"}}},
 		{Name: "dump-through-a-bytes-buffer", Rule: "R18.1", Where: "(*Connect).dump", Edits: []Edit{{"connect.go", "\tp.UserProperties.dump(w)\n}\n\nfunc stars", "\tp.UserProperties.dump(w)\n\tvar bb bytes.Buffer\n\tbb.WriteString(p.Username())\n\tfmt.Fprint(w, bb.String())\n}\n\nfunc stars"}}},
+		{Name: "setter-normalises-utf8-through-runes", Rule: "R18.5", Where: "(*Connect).SetUsername", Edits: []Edit{{"connect.go", "\tp.username = wstring(v)\n", "\tp.username = wstring(string([]rune(v)))\n"}}},
+		{Name: "dump-prints-go-syntax-of-the-packet", Rule: "R18.1", Where: "(*Connect).dump", Edits: []Edit{{"connect.go", "\tfmt.Fprintf(w, \"AuthData: %v\\n\", p.AuthData())", "\tfmt.Fprintf(w, \"%#v\\n\", p)\n\tfmt.Fprintf(w, \"AuthData: %v\\n\", p.AuthData())"}}},
+		{Name: "dump-prints-the-packet-with-a-number-verb", Rule: "R18.1", Where: "(*Connect).dump", Edits: []Edit{{"connect.go", "\tfmt.Fprintf(w, \"AuthData: %v\\n\", p.AuthData())", "\tfmt.Fprintf(w, \"%d\\n\", p)\n\tfmt.Fprintf(w, \"AuthData: %v\\n\", p.AuthData())"}}},
+		{Name: "dump-table-lookup-on-password-bytes", Rule: "R18.1", Where: "(*Connect).dump", Edits: []Edit{{"connect.go", "\tp.UserProperties.dump(w)\n}\n\nfunc stars", "\tp.UserProperties.dump(w)\n\tif len(p.password) > 0 {\n\t\tvar classes [256]string\n\t\tfmt.Fprintf(w, \"class: %s\\n\", classes[p.password[0]])\n\t}\n}\n\nfunc stars"}}},
 		{Name: "setter-stores-a-copy", Silent: true, Edits: []Edit{{"connect.go", "\tp.password = v\n", "\tp.password = append([]byte(nil), v...)\n"}}},
 		{Name: "print-length-only", Silent: true, Edits: []Edit{{"connect.go", "fmt.Fprintf(w, \"Password: %q\\n\", stars(len(p.Password())))", "fmt.Fprintf(w, \"Password: %d bytes\\n\", len(p.Password()))"}}},
 	}})
@@ -289,9 +293,19 @@ func (t *taint) step(fn *ssa.Function, ins ssa.Instruction) {
 		if t.isT(x.X) {
 			t.mark(x, t.whyOf(x.X))
 		}
+		if t.isT(x.Index) {
+			t.mark(x, "element selected by credential content")
+		}
 	case *ssa.Index:
 		if t.isT(x.X) {
 			t.mark(x, t.whyOf(x.X))
+		}
+		if t.isT(x.Index) {
+			t.mark(x, "element selected by credential content")
+		}
+	case *ssa.MakeSlice:
+		if t.isT(x.Len) || t.isT(x.Cap) {
+			t.markLen(x) // a buffer whose size is computed from the content
 		}
 	case *ssa.Field:
 		if t.isT(x.X) {
@@ -573,7 +587,20 @@ func checkC18(p *Prog, c *Check) {
 							}
 							if fc.Verbs[i] != 'T' && fc.Verbs[i] != 'p' && secretType(at, secret, 0) {
 								ms := p.Prog.MethodSets.MethodSet(at)
-								if ms.Lookup(p.Pkg, "String") == nil && ms.Lookup(p.Pkg, "Error") == nil && ms.Lookup(p.Pkg, "Format") == nil {
+								// fmt renders through String()/Error() only for the verbs %v %s %q %x %X (without '#'); %#v uses
+								// GoString() if present; every other verb (%d, %o, %b, %c, %U …) prints the fields
+								shielded := ms.Lookup(p.Pkg, "Format") != nil
+								switch fc.Verbs[i] {
+								case 'v', 's', 'q', 'x', 'X', 0:
+									if ms.Lookup(p.Pkg, "String") != nil || ms.Lookup(p.Pkg, "Error") != nil {
+										shielded = true
+									}
+								case 'V':
+									if ms.Lookup(p.Pkg, "GoString") != nil {
+										shielded = true
+									}
+								}
+								if !shielded {
 									fnBad++
 									c.Bad("R18.1", cons, posOf(p, ins), fmt.Sprintf("operand %d of %s is a %s, which fmt prints field by field including the credentials", i, fc.Name, typeStr(at)))
 								}
@@ -743,6 +770,9 @@ func checkCredentialsStoredAsGiven(p *Prog, c *Check, rule string, tn string, fi
 		case *ssa.ChangeType:
 			return carrier(fn, x.X, depth+1)
 		case *ssa.Convert:
+			if !lengthPreserving(x.X.Type(), x.Type()) {
+				return false, "the argument passes through a conversion that does not keep its length (" + typeStr(x.X.Type()) + " → " + typeStr(x.Type()) + "): invalid bytes become three-byte replacement characters"
+			}
 			return carrier(fn, x.X, depth+1)
 		case *ssa.Slice:
 			if x.Low == nil && x.High == nil && x.Max == nil {
